@@ -3,16 +3,17 @@
 # scratch worktree bind-mounted over /repo (private mount namespace; /repo is not touched).  Prints one line per change;
 # exit 1 if a change that was detected before is no longer detected.
 G=${1:-*}
-WT=/tmp/mut/replaywt
+V=$(cd "$(dirname "$0")/.." && pwd)
+WT=${REPLAY_WT:-/tmp/mut/replaywt}
 [ -d $WT ] || git -C /repo worktree add --detach $WT HEAD > /dev/null 2>&1
 [ -f $WT/Cargo.lock ] || cp /repo/Cargo.lock $WT/Cargo.lock 2>/dev/null
 BAD=0
-for d in /verif/seeded/$G/; do
+for d in $V/seeded/$G/; do
   n=$(basename $d)
   P=$(python3 -c "import json;print(json.load(open('$d/meta.json'))['breaks_property'])")
   AT=$(python3 -c "import json;print(json.load(open('$d/meta.json')).get('applies_to',''))")
   [ -n "$AT" ] && { echo "$n $P skipped (kept as a record; applies to $AT only)"; continue; }
-  OUT=$(/verif/tools/try_mutant_ns.sh $WT $d/patch.diff $P 2>&1)
+  OUT=$($V/tools/try_mutant_ns.sh $WT $d/patch.diff $P 2>&1)
   RC=$(echo "$OUT" | grep -o "exit=[0-9]*" | head -1)
   echo "$n $P $RC $(echo "$OUT" | grep 'what:' | head -1 | cut -c1-150)"
   [ "$RC" = "exit=1" ] || BAD=1
